@@ -931,6 +931,19 @@ where
         slot_flag: SlotFlag,
         slots: Option<Box<Expr>>,
     ) -> Expr {
+        // the children move into a slot function, which is neither async nor a generator
+        let mut finder = SuspensionFinder::default();
+        elems.visit_with(&mut finder);
+        if let Some(span) = finder.0 {
+            HANDLER.with(|handler| {
+                handler.span_err(
+                    span,
+                    "`await` and `yield` can't be used in the children of a component, \
+                     which are evaluated later inside a slot function.",
+                )
+            });
+        }
+
         let mut props = vec![PropOrSpread::Prop(Box::new(Prop::KeyValue(KeyValueProp {
             key: PropName::Ident(quote_ident!("default")),
             value: Box::new(Expr::Arrow(ArrowExpr {
@@ -1731,6 +1744,34 @@ where
             "name",
             Expr::Lit(Lit::Str(quote_str!(name.sym.clone()))),
         );
+    }
+}
+
+/// Finds an `await` or `yield` that belongs to the enclosing function (not to a nested one).
+#[derive(Default)]
+struct SuspensionFinder(Option<Span>);
+
+impl Visit for SuspensionFinder {
+    fn visit_await_expr(&mut self, await_expr: &AwaitExpr) {
+        self.0.get_or_insert(await_expr.span);
+    }
+
+    fn visit_yield_expr(&mut self, yield_expr: &YieldExpr) {
+        self.0.get_or_insert(yield_expr.span);
+    }
+
+    fn visit_function(&mut self, _: &Function) {}
+
+    fn visit_arrow_expr(&mut self, _: &ArrowExpr) {}
+
+    fn visit_constructor(&mut self, _: &Constructor) {}
+
+    fn visit_getter_prop(&mut self, getter_prop: &GetterProp) {
+        getter_prop.key.visit_with(self);
+    }
+
+    fn visit_setter_prop(&mut self, setter_prop: &SetterProp) {
+        setter_prop.key.visit_with(self);
     }
 }
 
